@@ -95,13 +95,37 @@ def obs_to_coq(obs):
 
 
 def given_to_coq(g):
+    """A user-supplied mean / std: form 'array' (default) / 'npscalar' carry their dtype, 'pyint' / 'pyfloat' are weak scalars."""
     if g is None:
         return 'None'
-    return f'(Some ({COQ_DT[g["dtype"]]}, {C.coq_list(g["values"], val_to_coq)}))'
+    form = g.get('form', 'array')
+    gd = {'pyint': 'GWeakInt', 'pyfloat': 'GWeakFloat'}.get(form) or f'(GArr {COQ_DT[g["dtype"]]})'
+    return f'(Some ({gd}, {C.coq_list(g["values"], val_to_coq)}))'
 
 
 def given_arr(g):
-    return None if g is None else np.array(g['values'], dtype=g['dtype'])
+    if g is None:
+        return None
+    form = g.get('form', 'array')
+    if form == 'pyint':
+        return int(g['values'][0])
+    if form == 'pyfloat':
+        return float(g['values'][0])
+    if form == 'npscalar':
+        return np.dtype(g['dtype']).type(g['values'][0])
+    return np.array(g['values'], dtype=g['dtype'])
+
+
+def is_int_given(g):
+    return g is not None and (g.get('form') == 'pyint' or (g.get('form', 'array') in ('array', 'npscalar') and not is_float_dt(g['dtype'])))
+
+
+D15_TAG = 'standardize_on_integer_mean_not_promoted'
+
+
+def std_on_int_mean(case):
+    """The input class of the StandardizeOn finding: integer / bool traces with an integer-typed given mean."""
+    return case.get('kind') == 'StandardizeOn' and not is_float_dt(case['dtype']) and is_int_given(case.get('mean'))
 
 
 # ------------------------------------------------------------------------------------------------ frames
@@ -241,6 +265,44 @@ def rand_given(rng, w, allow_bad=False, nonzero=False, scale=8):
     return {'dtype': dt, 'values': vals}
 
 
+def int_given(rng, w, trace_dt, positive=False, small=False, scalar_only=False):
+    """An integer-typed mean / std: Python int, numpy integer scalar or integer array of any integer dtype; values at the
+    borders of the given dtype and of the traces' dtype (differences that are negative or exceed the traces' dtype)."""
+    form = rng.choice(['pyint', 'npscalar', 'array', 'array']) if not scalar_only else rng.choice(['pyint', 'npscalar'])
+    gdt = rng.choice(INT_DTYPES + ([trace_dt] if trace_dt in INT_DTYPES else []))
+    info = np.iinfo(gdt)
+    lo, hi = int(info.min), int(info.max)
+    pool = [1, 2, 3, 127, 128, 255, hi, hi - 1, hi // 2 + 1]
+    if trace_dt in INT_DTYPES:
+        ti = np.iinfo(trace_dt)
+        pool += [int(ti.max), int(ti.max) // 2 + 1]
+    if not positive:
+        pool += [0, -1, lo, lo + 1, -128]
+    if form == 'pyint':
+        gdt = 'int64'
+        pool += [300, 70000, 2 ** 31 - 1] + ([] if positive else [-300, -2 ** 31])
+        lo, hi = -2 ** 62, 2 ** 62
+    if small:
+        pool = [v for v in pool if abs(v) <= 255]
+    pool = [v for v in pool if lo <= v <= hi and not (positive and v <= 0)] or [1]
+    k = 1 if form != 'array' else (1 if rng.random() < 0.1 else w)
+    return {'dtype': gdt, 'values': [rng.choice(pool) for _ in range(k)], 'form': form}
+
+
+def any_given(rng, w, trace_dt, positive=False, small=False, allow_bad=False):
+    """float32/float64 vectors (as before), integer-typed ones, and Python floats."""
+    r = rng.random()
+    if r < 0.45:
+        return int_given(rng, w, trace_dt, positive=positive, small=small)
+    if r < 0.52:
+        v = rng.randint(1 if positive else -512, 512) / 8
+        return {'dtype': 'float64', 'values': [v if v != 0 or not positive else 0.5], 'form': 'pyfloat'}
+    g = rand_given(rng, w, allow_bad=allow_bad, nonzero=positive)
+    if positive:
+        g['values'] = [abs(v) for v in g['values']]
+    return g
+
+
 # ------------------------------------------------------------------------------------------------ building preprocesses
 
 COMB_OPS = ['Product', 'CenteredProduct', 'Difference', 'AbsoluteDifference']
@@ -327,12 +389,12 @@ def pick_layout(rng):
     return rng.choice(['C', 'C', 'C', 'F', 'strided'])
 
 
-def run_pre(case):
+def run_pre(case, obj=None):
     with warnings.catch_warnings():
         warnings.simplefilter('ignore')
         t = traces_of(case)
         before = t.copy()
-        r = build(case)(t)
+        r = (obj if obj is not None else build(case))(t)
         o = out_obs(r)
         o['input_unchanged'] = bool(np.array_equal(t, before, equal_nan=False)) if t.dtype.kind != 'f' else bool(np.array_equal(t, before, equal_nan=True))
         return o
@@ -457,6 +519,18 @@ class CombKind(Kind):
                 yield comb_case(rng, 'CenteredProduct', dt, w, 3, F_ELL, F_NONE, 'full', None, style='small', mean=rand_given(rng, w, allow_bad=True))
                 yield comb_case(rng, 'CenteredProduct', dt, w, 3, f_slice(0, w), F_NONE, 'full', 1, precision=rng.choice(['float64', 'float16']), style='small',
                                 mean=rng.choice([None, rand_given(rng, w)]))
+        # ---- integer-typed given means (Python int, numpy scalar, integer arrays): the difference must not wrap
+        for dt, m in (('uint8', 128), ('uint8', 255), ('int8', 127), ('int8', -128), ('int16', 32767), ('uint16', 65535), ('int32', 2 ** 31 - 1), ('uint64', 2 ** 63)):
+            lo = int(np.iinfo(dt).min)
+            hi = int(np.iinfo(dt).max)
+            rows = [[lo, hi], [hi, lo], [0, 1]]
+            for g in ({'dtype': 'int64', 'values': [m], 'form': 'pyint'}, {'dtype': dt, 'values': [m], 'form': 'npscalar'}, {'dtype': dt, 'values': [m, m], 'form': 'array'}):
+                yield {'fam': 'comb', 'op': 'CenteredProduct', 'dtype': dt, 'width': 2, 'rows': rows, 'f1': F_ELL, 'f2': F_NONE, 'mode': 'full',
+                       'distance': None, 'precision': 'float32', 'mean': g}
+        for dt in DTYPES:
+            for _ in range(3):
+                yield comb_case(rng, 'CenteredProduct', dt, 3, 2, F_ELL, F_NONE, 'full', rng.choice([None, 1]), style='ext' if dt != 'float16' else 'small',
+                                mean=int_given(rng, 3, dt, small=(dt == 'float16')))
         # ---- precision float16 / float64 on the other ops
         for op in ('Product', 'Difference', 'AbsoluteDifference'):
             for dt in DTYPES:
@@ -489,8 +563,8 @@ class CombKind(Kind):
             prec = rng.choice(['float32', 'float32', 'float64', 'float16'])
             style = 'small' if prec == 'float16' else rng.choice(['mix', 'rand', 'ext', 'small'])
             mean = None
-            if op == 'CenteredProduct' and rng.random() < 0.4:
-                mean = rand_given(rng, w, allow_bad=True)
+            if op == 'CenteredProduct' and rng.random() < 0.5:
+                mean = any_given(rng, w, dt, small=(prec == 'float16' or dt == 'float16'), allow_bad=True)
                 style = 'small' if style == 'rand' else style
             if op == 'CenteredProduct' and w == 1 and mean is not None and len(mean['values']) != 1:
                 mean = None
@@ -569,6 +643,23 @@ class FirstOrderKind(Kind):
         yield {'fam': 'fo', 'kind': 'square', 'dtype': 'int32', 'width': 2, 'rows': [[100000, -46341], [2147483647, -2147483648]], 'precision': 'float32'}
         yield {'fam': 'fo', 'kind': 'center', 'dtype': 'int32', 'width': 2, 'rows': [[1, 2147483647], [2, 2147483646], [2, -2147483648]], 'precision': 'float32'}
         yield {'fam': 'fo', 'kind': 'standardize', 'dtype': 'uint8', 'width': 3, 'rows': [[3, 0, 255], [3, 255, 255], [3, 7, 254]], 'precision': 'float32'}
+        # integer-typed given means / stds (Python int, numpy scalar, integer arrays); CenterOn promotes before subtracting
+        for dt, m in (('uint8', 128), ('uint8', 255), ('int8', 127), ('int8', -128), ('int16', 32767), ('uint16', 65535), ('int32', 2 ** 31 - 1),
+                      ('uint32', 2 ** 32 - 1), ('int64', 2 ** 62), ('uint64', 2 ** 63)):
+            lo = int(np.iinfo(dt).min)
+            hi = int(np.iinfo(dt).max)
+            rows = [[lo, hi], [hi, lo], [0, 1]]
+            for g in ({'dtype': 'int64', 'values': [m], 'form': 'pyint'}, {'dtype': dt, 'values': [m], 'form': 'npscalar'}, {'dtype': dt, 'values': [m, m], 'form': 'array'}):
+                yield {'fam': 'fo', 'kind': 'CenterOn', 'dtype': dt, 'width': 2, 'rows': rows, 'precision': 'float32', 'mean': g}
+                yield {'fam': 'fo', 'kind': 'StandardizeOn', 'dtype': dt, 'width': 2, 'rows': rows, 'precision': 'float32', 'mean': g,
+                       'std': {'dtype': 'int64', 'values': [2], 'form': 'pyint'}}
+        for dt in DTYPES:
+            small = dt == 'float16'
+            for _ in range(3):
+                yield fo_case(rng, 'CenterOn', dt, 3, 2, 'small' if small else 'ext', mean=int_given(rng, 3, dt, small=small))
+                yield fo_case(rng, 'StandardizeOn', dt, 3, 2, 'small' if small else 'mix', mean=rand_given(rng, 3), std=int_given(rng, 3, dt, positive=True, small=small))
+                yield fo_case(rng, 'StandardizeOn', dt, 3, 2, 'small', mean=None, std=int_given(rng, 3, dt, positive=True, small=True))
+                yield fo_case(rng, 'StandardizeOn', dt, 3, 2, 'small' if small else 'mix', mean=int_given(rng, 3, dt, small=small), std=int_given(rng, 3, dt, positive=True, small=small))
         for dt in DTYPES:
             for style in ('ext', 'mix', 'small'):
                 for w, n in ((1, 1), (2, 3), (4, 4)):
@@ -594,15 +685,14 @@ class FirstOrderKind(Kind):
             prec = rng.choice(['float32', 'float32', 'float64', 'float16'])
             style = 'small' if (prec == 'float16' or dt == 'float16') else rng.choice(['mix', 'ext', 'small', 'rand'])
             if kind == 'CenterOn':
-                mean = None if rng.random() < 0.4 else rand_given(rng, w, allow_bad=True)
+                mean = None if rng.random() < 0.4 else any_given(rng, w, dt, small=(prec == 'float16' or dt == 'float16'), allow_bad=True)
                 if w == 1 and mean is not None and len(mean['values']) != 1:
                     mean = None
                 yield fo_case(rng, kind, dt, w, n, style, mean=mean, precision=prec)
             elif kind == 'StandardizeOn':
-                mean = None if rng.random() < 0.5 else rand_given(rng, w)
-                std = None if rng.random() < 0.5 else rand_given(rng, w, nonzero=True)
-                if std is not None:
-                    std['values'] = [abs(v) for v in std['values']]
+                sm = prec == 'float16' or dt == 'float16'
+                mean = None if rng.random() < 0.5 else any_given(rng, w, dt, small=sm)
+                std = None if rng.random() < 0.5 else any_given(rng, w, dt, positive=True, small=sm)
                 c = fo_case(rng, kind, dt, w, n, style, mean=mean, std=std, precision=prec)
                 yield tame_wide(c) if std is None else c
             elif kind == 'ToPower':
@@ -651,6 +741,8 @@ class FirstOrderKind(Kind):
         t = ['first_order', 'fo_' + case['kind']]
         if wide_not_promoted(case, obs):
             t.append(D9_TAG)
+        if std_on_int_mean(case):
+            t.append(D15_TAG)
         return t
 
     def shrink(self, case):
@@ -705,6 +797,42 @@ def tf_case(rng, op, mode, f1, f2, dt, w, n):
     return c
 
 
+def tf_oracle(case, o):
+    """Oracle side of a time-frequency observation: the preprocessed chunks and numpy's FFTs of them (nothing of scared is used)."""
+    if 'raised' in o:
+        return o
+    # oracle side: the preprocessed chunks and numpy's FFTs of them (nothing of scared is used here)
+    with warnings.catch_warnings():
+        warnings.simplefilter('ignore')
+        t = traces_of(case)
+        f1, f2 = case['f1'], case['f2']
+        if f1['t'] == 'none' or f2['t'] == 'none':
+            f1 = f2 = (f2 if f1['t'] == 'none' else f1)
+        pre = {'centered': np_center, 'standardized': np_standardize}.get(case['mode'], lambda x: x)
+        x1 = pre(t[:, code_frame(f1)])
+        x2 = pre(t[:, code_frame(f2)])
+        o['x1'] = exact_rows(x1)
+        o['x2'] = exact_rows(x2)
+        rf, irf = [], []
+        empty = (x1.shape[1] == 0 or x2.shape[1] == 0) if case['op'] in TF_P2P else (x1.shape[1] + x2.shape[1] == 0)
+        if empty:
+            return o
+        if case['op'] in TF_P2P:
+            F1 = np.fft.rfft(x1, axis=1)
+            F2 = np.fft.rfft(x2, axis=1)
+            rf += list(zip(o['x1'], cplx_rows(F1))) + list(zip(o['x2'], cplx_rows(F2)))
+            if case['op'] == 'Xcorr' and F1.shape == F2.shape:
+                P = np.conjugate(F1) * F2
+                irf += list(zip(cplx_rows(P), exact_rows(np.fft.irfft(P))))
+        else:
+            xc = np.hstack([x1, x2])
+            rf += list(zip(exact_rows(xc), cplx_rows(np.fft.rfft(xc, axis=1))))
+        o['rfft'] = [[k, v] for k, v in rf]
+        o['irfft'] = [[k, v] for k, v in irf]
+    return o
+
+
+
 class TimeFreqKind(Kind):
     name = 'time_frequency'
     header = HDR
@@ -755,38 +883,7 @@ class TimeFreqKind(Kind):
             yield tf_case(rng, op, mode, f1, f2, dt, w, rng.randint(1, 4))
 
     def run(self, case):
-        o = run_pre(case)
-        if 'raised' in o:
-            return o
-        # oracle side: the preprocessed chunks and numpy's FFTs of them (nothing of scared is used here)
-        with warnings.catch_warnings():
-            warnings.simplefilter('ignore')
-            t = traces_of(case)
-            f1, f2 = case['f1'], case['f2']
-            if f1['t'] == 'none' or f2['t'] == 'none':
-                f1 = f2 = (f2 if f1['t'] == 'none' else f1)
-            pre = {'centered': np_center, 'standardized': np_standardize}.get(case['mode'], lambda x: x)
-            x1 = pre(t[:, code_frame(f1)])
-            x2 = pre(t[:, code_frame(f2)])
-            o['x1'] = exact_rows(x1)
-            o['x2'] = exact_rows(x2)
-            rf, irf = [], []
-            empty = (x1.shape[1] == 0 or x2.shape[1] == 0) if case['op'] in TF_P2P else (x1.shape[1] + x2.shape[1] == 0)
-            if empty:
-                return o
-            if case['op'] in TF_P2P:
-                F1 = np.fft.rfft(x1, axis=1)
-                F2 = np.fft.rfft(x2, axis=1)
-                rf += list(zip(o['x1'], cplx_rows(F1))) + list(zip(o['x2'], cplx_rows(F2)))
-                if case['op'] == 'Xcorr' and F1.shape == F2.shape:
-                    P = np.conjugate(F1) * F2
-                    irf += list(zip(cplx_rows(P), exact_rows(np.fft.irfft(P))))
-            else:
-                xc = np.hstack([x1, x2])
-                rf += list(zip(exact_rows(xc), cplx_rows(np.fft.rfft(xc, axis=1))))
-            o['rfft'] = [[k, v] for k, v in rf]
-            o['irfft'] = [[k, v] for k, v in irf]
-        return o
+        return tf_oracle(case, run_pre(case))
 
     def coq(self, case, obs):
         def tbl(entries, kf, vf):
@@ -822,6 +919,13 @@ class TimeFreqKind(Kind):
         return short_sample(case, obs)
 
 
+def fm_oracle(case, o):
+    if 'raised' not in o:
+        t = traces_of(case)
+        o['fft'] = [[k, v] for k, v in zip(exact_rows(t), cplx_rows(np.fft.fft(t)))]
+    return o
+
+
 class FftModulusKind(Kind):
     name = 'fft_modulus'
     header = HDR
@@ -837,11 +941,7 @@ class FftModulusKind(Kind):
                 yield {'fam': 'fo', 'kind': 'fft_modulus', 'dtype': dt, 'width': w, 'rows': rand_rows(rng, dt, rng.randint(1, 3), w, style), 'precision': 'float32'}
 
     def run(self, case):
-        o = run_pre(case)
-        if 'raised' not in o:
-            t = traces_of(case)
-            o['fft'] = [[k, v] for k, v in zip(exact_rows(t), cplx_rows(np.fft.fft(t)))]
-        return o
+        return fm_oracle(case, run_pre(case))
 
     def coq(self, case, obs):
         tbl = C.coq_list(obs.get('fft', []), lambda e: f'({C.coq_list(e[0], val_to_coq)}, {C.coq_list(e[1], cplx_to_coq)})')
@@ -1011,4 +1111,161 @@ class DecoratorKind(Kind):
         return {'outcome': obs.get('outcome', obs.get('raised'))}
 
 
-KINDS = [PromoteKind(), CombKind(), FirstOrderKind(), TimeFreqKind(), FftModulusKind(), RowIndepKind(), DecoratorKind()]
+# ------------------------------------------------------------------------------------------------ kind: one object, several calls
+
+class ReuseKind(Kind):
+    name = 'object_reuse'
+    header = HDR
+    case_type = 'reuse_case'
+    check_fn = 'reuse_check'
+    explain_fn = 'reuse_explain'
+    shard = 25
+    rule = ('ONE preprocess object (the four combinations in their three loops, CenterOn / StandardizeOn / ToPower, the plain functions, the six '
+            'time-frequency classes, fft_modulus) called 2-4 times on batches of different widths, row counts, dtypes and layouts; every output is '
+            'compared with the spec exactly as for a fresh object (no state may survive a call); non-trivial = at least two calls returned')
+
+    def __init__(self):
+        self._comb, self._fo, self._tf, self._fm = CombKind(), FirstOrderKind(), TimeFreqKind(), FftModulusKind()
+
+    def _calls(self, rng, widths, style_for):
+        calls = []
+        for w in widths:
+            dt = rng.choice(DTYPES)
+            n = rng.randint(1, 4)
+            calls.append({'dtype': dt, 'width': w, 'rows': rand_rows(rng, dt, n, w, style_for(dt)), 'layout': pick_layout(rng)})
+        return calls
+
+    def gen(self, rng, tier):
+        thorough = tier != 'quick'
+
+        def widths(k, lo=1, hi=7):
+            return [rng.randint(lo, hi) for _ in range(k)]
+
+        # the distance class on the default whole-trace frame: wider then narrower then wider traces
+        for op in COMB_OPS:
+            for ws in ([5, 3, 6], [2, 4], [4, 4, 1, 7]):
+                base = {'fam': 'comb', 'op': op, 'f1': F_ELL, 'f2': F_NONE, 'mode': 'full', 'distance': 2, 'precision': 'float32', 'mean': None, 'f1_default': True}
+                yield {'base': base, 'calls': self._calls(rng, ws, lambda dt: 'small' if dt == 'float16' else 'mix')}
+        for _ in range(400 if thorough else 45):
+            op = rng.choice(COMB_OPS)
+            ws = widths(rng.randint(2, 4))
+            wmin = min(ws)
+            k = rng.random()
+            f1 = rng.choice([F_ELL, F_ELL, random_frame(rng, wmin, False)])
+            if k < 0.4:
+                f2, mode, dist = F_NONE, 'full', rng.randint(1, max(ws) + 1)
+            elif k < 0.65:
+                f2, mode, dist = F_NONE, 'full', None
+            elif k < 0.85:
+                f2, mode, dist = random_frame(rng, wmin, False), 'full', None
+            else:
+                l = [rng.randint(0, wmin - 1) for _ in range(rng.randint(1, 3))]
+                f1, f2, mode, dist = f_list(l), f_list([rng.randint(0, wmin - 1) for _ in l]), 'same', None
+            mean = None
+            if op == 'CenteredProduct' and rng.random() < 0.5:
+                mean = int_given(rng, 1, 'uint8', scalar_only=True, small=True) if rng.random() < 0.5 else {'dtype': 'float64', 'values': [rng.randint(-64, 64) / 8]}
+            base = {'fam': 'comb', 'op': op, 'f1': f1, 'f2': f2, 'mode': mode, 'distance': dist, 'precision': rng.choice(['float32', 'float64']), 'mean': mean}
+            yield {'base': base, 'calls': self._calls(rng, ws, lambda dt: 'small' if (dt == 'float16' or op == 'CenteredProduct') else 'mix')}
+        for _ in range(250 if thorough else 30):
+            kind = rng.choice(['square', 'center', 'standardize', 'ToPower', 'CenterOn', 'StandardizeOn', 'serialize_bit'])
+            base = {'fam': 'fo', 'kind': kind, 'precision': rng.choice(['float32', 'float64'])}
+            if kind == 'ToPower':
+                base['power'] = rng.randint(0, 3)
+            if kind == 'CenterOn' and rng.random() < 0.6:
+                base['mean'] = int_given(rng, 1, 'uint8', scalar_only=True, small=True)
+            if kind == 'StandardizeOn':
+                if rng.random() < 0.5:
+                    base['mean'] = {'dtype': 'float64', 'values': [rng.randint(-64, 64) / 8]}
+                if rng.random() < 0.5:
+                    base['std'] = {'dtype': 'float32', 'values': [rng.randint(1, 64) / 8]}
+            calls = self._calls(rng, widths(rng.randint(2, 4), 1, 5), lambda dt: 'small')
+            if kind == 'serialize_bit':
+                for c in calls:
+                    if is_float_dt(c['dtype']):
+                        c['dtype'] = 'int16'
+                        c['rows'] = rand_rows(rng, 'int16', len(c['rows']), c['width'], 'mix')
+            if kind in ('standardize', 'StandardizeOn'):
+                calls = [tame_wide(c) for c in calls]
+            yield {'base': base, 'calls': calls}
+        for _ in range(250 if thorough else 30):
+            if rng.random() < 0.15:
+                base = {'fam': 'fo', 'kind': 'fft_modulus', 'precision': 'float32'}
+                yield {'base': base, 'calls': self._calls(rng, widths(rng.randint(2, 3), 1, 8), lambda dt: 'small')}
+                continue
+            op = rng.choice(TF_OPS)
+            mode = rng.choice(list(TF_MODES))
+            ws = widths(rng.randint(2, 3), 2, 8)
+            wmin = min(ws)
+            f1 = rng.choice([F_NONE, F_NONE, f_slice(0, wmin), f_slice(0, max(wmin - 1, 2) if wmin > 2 else 2)])
+            calls = []
+            for w in ws:
+                dt = rng.choice(DTYPES)
+                c = tf_case(rng, op, mode, f1, F_NONE, dt, w, rng.randint(1, 3))
+                calls.append({k: c[k] for k in ('dtype', 'width', 'rows') if k in c} | ({'layout': c['layout']} if 'layout' in c else {}))
+            yield {'base': {'fam': 'tf', 'op': op, 'mode': mode, 'f1': f1, 'f2': F_NONE}, 'calls': calls}
+
+    def _sub(self, case):
+        return [dict(case['base'], **c) for c in case['calls']]
+
+    def run(self, case):
+        subs = self._sub(case)
+        with warnings.catch_warnings():
+            warnings.simplefilter('ignore')
+            obj = build(subs[0])            # built ONCE; the traces play no part in the construction
+        obs = []
+        for sc in subs:
+            try:
+                o = run_pre(sc, obj)
+            except Exception as e:
+                o = {'raised': type(e).__name__, 'msg': str(e)[:120]}
+            if sc['fam'] == 'tf':
+                o = tf_oracle(sc, o)
+            elif sc.get('kind') == 'fft_modulus':
+                o = fm_oracle(sc, o)
+            obs.append(o)
+        return {'calls': obs}
+
+    def coq(self, case, obs):
+        parts = []
+        for sc, o in zip(self._sub(case), obs.get('calls', [])):
+            if sc['fam'] == 'comb':
+                parts.append(f'(AComb {self._comb.coq(sc, o)})')
+            elif sc['fam'] == 'tf':
+                parts.append(f'(ATf {self._tf.coq(sc, o)})')
+            elif sc['kind'] == 'fft_modulus':
+                parts.append(f'(AFm {self._fm.coq(sc, o)})')
+            else:
+                parts.append(f'(AFo {self._fo.coq(sc, o)})')
+        return C.coq_list(parts)
+
+    def oracle(self, case, obs):
+        if 'raised' in obs:
+            return f'the construction raised {obs["raised"]}: {obs.get("msg")}'
+        for i, o in enumerate(obs['calls']):
+            if 'raised' not in o and not o.get('input_unchanged', True):
+                return f'call {i} modified its input traces'
+        return None
+
+    def nontrivial(self, case, obs):
+        return sum(1 for o in obs.get('calls', []) if 'rows' in o) >= 2
+
+    def features(self, case, obs):
+        b = case['base']
+        return {'what': b.get('op', b.get('kind')), 'calls': len(case['calls']), 'raised_calls': sum(1 for o in obs.get('calls', []) if 'raised' in o)}
+
+    def tags(self, case, obs):
+        b = case['base']
+        return ['object_reuse', 'reuse_' + str(b.get('op', b.get('kind')))]
+
+    def shrink(self, case):
+        calls = case['calls']
+        if len(calls) > 2:
+            for i in range(len(calls) - 1, -1, -1):
+                yield dict(case, calls=calls[:i] + calls[i + 1:])
+
+    def sample(self, case, obs):
+        o = {'calls': [{k: (v[:2] if k == 'rows' else v) for k, v in c.items() if k in ('dtype', 'rows', 'raised')} for c in obs.get('calls', [])]}
+        return {'case': case, 'observed': o}
+
+
+KINDS = [PromoteKind(), CombKind(), FirstOrderKind(), TimeFreqKind(), FftModulusKind(), RowIndepKind(), DecoratorKind(), ReuseKind()]
